@@ -291,6 +291,32 @@ func ruleTokenize(r *Run, rule string) {
 			}
 		}
 	})
+	// … on every path: each returned value is ToLower(NFKC(argument)) (resolved per return; a fast path that skips NFKC for
+	// "simple" text is only sound for ASCII, and the rule cannot see that — it must go through NFKC or be reported)
+	{
+		cn := NewCanon(w)
+		for _, ret := range returnsOf(norm) {
+			var vals []ssa.Value
+			var expand func(v ssa.Value, d int)
+			expand = func(v ssa.Value, d int) {
+				if ph, ok := v.(*ssa.Phi); ok && d < 4 {
+					for _, e := range ph.Edges {
+						expand(e, d+1)
+					}
+					return
+				}
+				vals = append(vals, v)
+			}
+			expand(ret.Results[0], 0)
+			for _, v := range vals {
+				sv := cn.S(v)
+				if !(strings.HasPrefix(sv, "strings.ToLower(") && strings.Contains(sv, "norm.Form).String(") && strings.Contains(sv, "P0")) {
+					hasLower = false
+					r.Bad(rule, "normalize:every-path", w.InstrPos(ret)+" "+w.Name(norm), "a returned value is "+short(sv, 100)+", not lower(NFKC(text)): some texts skip compatibility folding (x² vs x2, ™ vs tm)")
+				}
+			}
+		}
+	}
 	r.Check(hasNFKC && hasLower, rule, "normalize:nfkc-lower", w.Pos(norm.Pos())+" "+w.Name(norm), "normalize = lower(NFKC(text)), in this order",
 		fmt.Sprintf("normalize is not lower(NFKC(text)): NFKC=%v, lower-casing applied to the NFKC result=%v", hasNFKC, hasLower))
 	usesUAX := false
